@@ -31,6 +31,8 @@ def run(ctx, rep):
     clauses(ctx.prog, rep)
     validate_before_arithmetic(ctx.prog, rep)
     only_i32(ctx.prog, rep)
+    accessor_after_clause(ctx.prog, rep)
+    index_helper_postcondition(ctx.prog, rep)
 
 
 def _error_clauses(body, ir, variant="Malformed"):
@@ -238,3 +240,83 @@ def only_i32(prog, rep):
             ok = not bad and a.get("repr_c") and size_ok
             why = "repr(C)=%s, size %s, align %s, non-i32 fields: %s" % (a.get("repr_c"), a.get("size"), a.get("align"), bad)
         rep.ob(rule, "impl OnlyI32 for " + ty, ok, why, "%s:%s" % (i.get("file"), i.get("ln")))
+
+
+def accessor_after_clause(prog, rep):
+    """R2c: inside Reader::check the item loop calls item_header(i) -- whose slicing is reviewed against the clause `item
+    header inside size_items` -- only after that clause passed for this i: the comparison of the advanced offset with
+    size_items dominates the call, and the offset was advanced by the header size before the comparison"""
+    rule = "R2c-accessor-after-clause"
+    b = prog.one(R + "check")
+    ir = IR(b)
+    hsz = prog.adt("libtw2_datafile::format::ItemHeader").get("size")
+    loops_ = b.sccs()
+    n = 0
+    for bi, t in b.calls():
+        if (t.get("callee") or "") != R + "item_header":
+            continue
+        comp = [c for c in loops_ if bi in c]
+        comp = min(comp, key=len) if comp else None
+        if comp is None:
+            continue
+        # the size_items comparison inside the same loop
+        clause = None
+        for e, rel, v, edge, dty in ir.edge_conditions(bi):
+            if e[0] == "bin" and e[1] in ("Gt", "Le", "Lt", "Ge") and "size_items" in show(e) and edge[0] in comp:
+                clause = (e, edge)
+        has_loop_clause = False
+        for cb_ in comp:
+            tt = b.blocks[cb_]["term"]
+            if tt["k"] == "switch":
+                ce = ir.term_operand(cb_, tt["o"])
+                if ce[0] == "bin" and "size_items" in show(ce) and "item_offsets" not in show(ce):
+                    has_loop_clause = True
+        if not has_loop_clause:
+            continue            # the second pass over the types: validated by the first loop (reviewed under R1)
+        n += 1
+        ok = clause is not None
+        adv = False
+        if ok:
+            e, edge = clause
+            lhs = e[2] if "size_items" in show(e[3]) else e[3]
+            l = lhs[1] if lhs[0] == "var" else None
+            for (dbi, dsi, kind, node) in ir.defs.get(l, []) if l is not None else []:
+                if kind == "assign" and dbi in comp and b.dominates(dbi, edge[0]):
+                    de = ir.rvalue(node["r"], (dbi, dsi))
+                    txt = show(strip_sites(de))
+                    if de[0] in ("bin", "field") and ("Add" in txt) and (str(hsz) in txt or "size_of" in txt):
+                        adv = True
+        rep.ob(rule, "item_header(i) in the item loop", ok and adv,
+               "called only after `offset + size_of::<ItemHeader>() <= size_items` was established for this item" if ok and adv else
+               "item_header(i) is called before the check that the header lies inside the item area%s: a truncated item table panics in check()"
+               % ("" if not ok else " (offset not advanced by the header size first)"), b.loc(t.get("ln")))
+    rep.floor(rule, n, 1, "item_header calls inside the validating item loop of check")
+
+
+def index_helper_postcondition(prog, rep):
+    """R4: map::reader::get_index_impl returns Some(i) only with i < indices.end (the accessors index the data table with it)"""
+    from ..guards import Reasoner, Lin
+    rule = "R4-index-helper-postcondition"
+    b = prog.one("libtw2_map::reader::get_index_impl")
+    ir = IR(b)
+    rs = Reasoner(ir, prog)
+    n = 0
+    for bi in sorted(b.live):
+        for si, st in enumerate(b.blocks[bi]["st"]):
+            if st["k"] == "assign" and st["r"]["k"] == "agg" and st["r"].get("variant") == "Some":
+                e = ir.rvalue(st["r"], (bi, si))
+                val = e[4][0][1]
+                n += 1
+                facts, nes = rs.facts_at(bi)
+                end = None
+                for c, rel, v, edge, dty in ir.edge_conditions(bi):
+                    for x in walk(c):
+                        if isinstance(x, tuple) and x and x[0] == "field" and x[2] == "end":
+                            end = x
+                lv, le = rs.lin(val), rs.lin(end) if end is not None else None
+                ok = lv is not None and le is not None and rs.prove(lv.sub(le).add(Lin.const(1)), facts)
+                rep.ob(rule, "Some(index) implies index < indices.end", ok,
+                       "the returned index is strictly below the end of the index range" if ok else
+                       "get_index_impl can return index == indices.end (or the bound is not established): the accessors index one past the table",
+                       b.loc(st.get("ln")))
+    rep.floor(rule, n, 1, "Some(..) in get_index_impl")
